@@ -48,6 +48,8 @@ def run(ctx):
     RL.check_initialisation(ctx, 'R20.6', T)
     check_global_writes(ctx)
     check_closure_cells(ctx)
+    ctx.rule('R20.10', 'the library itself never reconfigures the shared default lexer (who may call add_keywords / clear / set_SQL_REGEX / default_initialization)', floor=1)
+    RL.check_who_reconfigures(ctx, 'R20.10', ENTRY + ['sqlparse.cli.main'])
     ctx.rule('R20.9', 'lexer reconfiguration followed by default_initialization() gives the default lexer again (configuration methods interpreted)', floor=1)
     RL.check_reconfiguration(ctx, 'R20.9')
     # positive controls for zero-count rules
